@@ -211,6 +211,31 @@ def t5(F, rep):
     rep.add("T5", "bit-reader-single-byte-reads", n >= 2 and not bad, "src/bit_reader.rs", "%d uses of binary_reader, all read_u8 (no read-ahead)" % n if not bad else "; ".join(bad))
 
 
+def t6(F, rep):
+    """A block is decoded with the trees of its own header (RFC 1951 3.2.7: each dynamic block carries its codes): the
+    HuffmanReader handed to decode_block is built in the same call from the header just read (or is the fixed one), and the
+    reader keeps no Huffman state between blocks.  A cache made symmetrically in reader and writer survives every round trip."""
+    b = F.body(P + "deflate_reader::DeflateReader::<R>::read_block")
+    DYN = re.compile(r"^branch\((preflate_rs::)?huffman_encoding::HuffmanReader::create_from_original_encoding\((var\(\w+\)|_\d+)\.huffman_encoding\)\) as Continue\.0$")
+    FIX = re.compile(r"^branch\((preflate_rs::)?huffman_encoding::HuffmanReader::create_fixed\(\)\) as Continue\.0$")
+    calls = [(bb, t) for bb, t in b.calls() if strip_generics(callee_def(t)).endswith("::decode_block")]
+    rep.floor("T6", "decode_block-calls", len(calls), 2)
+    for i, (bb, t) in enumerate(calls):
+        d = flow.describe(b, t["args"][1])
+        blk = flow.describe(b, t["args"][2])
+        ok = bool(FIX.match(d))
+        m = DYN.match(d)
+        if m:
+            ok = ("var(%s)" % m.group(2)[4:-1] if m.group(2).startswith("var(") else m.group(2)) == blk or m.group(2) == blk
+        rep.add("T6", "trees-from-this-blocks-header#%d" % i, ok, b.where(bb), "decode_block(.., %s, %s)" % (d[:170], blk))
+    # the header the trees are built from is the one read from the input in this call
+    hdr = [flow.describe(b, t["args"][0]) for bb, t in b.calls() if strip_generics(callee_def(t)).endswith("HuffmanOriginalEncoding::read")]
+    rep.add("T6", "header-read-from-input", hdr == ["arg<&mut preflate_rs::deflate_reader::DeflateReader<R>>.input"], "%s:%s" % (b.file, b.line), "HuffmanOriginalEncoding::read(%s)" % hdr)
+    a = F.adts.get(P + "deflate_reader::DeflateReader")
+    held = [f["name"] for f in a["variants"][0]["fields"] if "Huffman" in f["ty"]] if a else ["?"]
+    rep.add("T6", "reader-keeps-no-code-tables", not held, "%s:%s" % (b.file, b.line), "DeflateReader fields holding Huffman state across blocks: %s" % held)
+
+
 def t5b(F, rep):
     """Padding reads take exactly the bits still buffered.  After any read the bit reader holds 0..7 unread bits of the
     current byte; the stored-block header and the end of the stream skip to the byte boundary by reading *those* bits. A
@@ -250,3 +275,4 @@ def run(ctx, rep):
     t4b(F, rep)
     t5(F, rep)
     t5b(F, rep)
+    t6(F, rep)
